@@ -67,13 +67,28 @@ GenericPrograms == <<"children()", "descendants()", "descendants().count()", "ch
 (* every input form with every option set (the harness builds both from these names)                                      *)
 InputForms == <<"one", "none", "nilslice", "two", "same-twice", "nil-element", "typed-nil-element", "nil-then-one", "bundle",
                 \* resources built directly from the protos: a Bundle whose entries hold no resource, a Patient whose contained slots are empty
-                "bundle-empty-entries", "patient-empty-contained">>
+                "bundle-empty-entries", "patient-empty-contained",
+                \* an Observation built from the protos: a valueQuantity that has a unit but no value, component quantities and
+                \* reference-range decimals whose value text has an extreme exponent (a valid FHIR decimal: 1e-999999999, 1E+999999999)
+                "observation-odd-quantities">>
 OptionSets == <<"none", "time-year-10000", "time-year-0", "time-year-minus-1", "time-9999-end", "time-zone+14", "time-zone-seconds",
                 "time-zero-value", "var-nil-collection", "var-empty-name", "var-twice", "var-nil-value", "var-typed-nil-element", "var-nested-collection">>
 OptionPrograms == <<"now()", "today()", "timeOfDay()", "now() + 1 year", "today() - 1 day", "now().toString()", "today().toString().toDate()",
                     "now() > today()", "timeOfDay() + 1 hour", "Patient.birthDate < today()", "Patient.name.given", "%x", "%x.count()",
                     "Patient.name.where(given.count() > %x.count())", "descendants().count()", "%context", "%context.name", "Bundle.entry.resource.id",
-                    "Bundle.entry.resource", "Bundle.entry", "Patient.contained", "Patient.contained.id", "children()", "Patient.name.family", "Bundle.entry.resource.descendants().count()">>
+                    "Bundle.entry.resource", "Bundle.entry", "Patient.contained", "Patient.contained.id", "children()", "Patient.name.family", "Bundle.entry.resource.descendants().count()",
+                    \* a variable that holds a NESTED collection (option set var-nested-collection) through the operators and set functions
+                    "%x = %x", "%x != %x", "%x.distinct()", "%x.isDistinct()", "%x.exclude(%x)", "%x.intersect(%x)", "%x & 'a'", "%x.first() = 1", "%x.where($this = 1)",
+                    "%x.toString()", "%x.select($this + 1)", "%x ~ %x", "%x < %x", "%x.not()", "%x.exists($this = 1)", "%x.all($this = 1)",
+                    \* quantities without a value, decimals with extreme exponents (input form observation-odd-quantities)
+                    "Observation.value > 5", "Observation.value = Observation.value", "Observation.value and true", "Observation.value.toQuantity()",
+                    "Observation.value.toString()", "Observation.value.value", "Observation.value + Observation.value", "Observation.value.exists()",
+                    "Observation.component.value.value + 1", "Observation.component.value.value * 2", "Observation.component.value.value = 0",
+                    "Observation.component.value.value.toString()", "Observation.component.value > 1 'mg'", "Observation.component.value.value.round(2)",
+                    "Observation.component.value.value.first().floor()", "Observation.component.value.first() + Observation.component.value.last()",
+                    "Observation.referenceRange.low.value < Observation.referenceRange.high.value", "Observation.component.value.distinct()",
+                    "Observation.descendants().toDecimal()", "Observation.descendants().toQuantity()", "Observation.descendants().select($this = $this)",
+                    "-Observation.component.value.value.first()", "Observation.component.value.value.first().sqrt()", "Observation.component.value.value.first() div 3">>
 
 (* The only outcomes a call may have. *)
 Returned == {"ok", "err", "cerr"}
